@@ -532,8 +532,53 @@ Definition call_handler (h : handler) (e : exc) (s : st) : st :=
   | None => s1
   end.
 
-(* _run_prepared_result, runtest.py:96-121: the final state, what propagates, out-of-fuel *)
-Definition run_prepared (p : prog) (fuel : nat) (s : st) : st * option exc * bool :=
+(* ------------------------------------------------------------------ *)
+(* the RunTest factory of the case: how TestCase.run gets its RunTest                                   *)
+(* (testcase.py: run_tests_with, the runTest= constructor argument, @run_test_with; TestCase.run     *)
+(* calls factory(case, exception_handlers, last_resort=_report_error) and, when that raises            *)
+(* TypeError, factory(case, exception_handlers))                                                       *)
+(* ------------------------------------------------------------------ *)
+(* what the factory is; every one of them ends up constructing a plain testtools.RunTest *)
+Inductive factory :=
+  | RT_RunTest       (* testtools.RunTest itself *)
+  | RT_SubExplicit   (* subclass, __init__(self, case, handlers=None, last_resort=None) *)
+  | RT_SubStar       (* subclass, __init__(self, case, *args, **kwargs), everything passed on *)
+  | RT_SubKwStar     (* subclass, __init__(self, case, *args, tag=0, **kwargs): an option of its own *)
+  | RT_FnExplicit    (* def factory(case, handlers=None, last_resort=None) *)
+  | RT_FnStar        (* def factory(case, *args, **kwargs) *)
+  | RT_FnKwOnly      (* def factory(case, handlers=None, *, last_resort=None) *)
+  | RT_FnKwargs      (* def factory(case, handlers=None, **kwargs) *)
+  | RT_Partial       (* functools.partial(RunTest) *)
+  | RT_Callable      (* an object whose __call__(self, case, handlers=None, last_resort=None) builds the RunTest *)
+  | RT_BoundMethod   (* a bound method maker.make(case, handlers=None, last_resort=None) *)
+  | RT_OldFn         (* written for the API before last_resort: def factory(case, handlers=None) *)
+  | RT_OldSub        (* subclass, __init__(self, case, handlers=None) *)
+  | RT_OldFnKw       (* def factory(case, handlers=None, tag=0) *)
+  | RT_FnRenamed.    (* def factory(case, handlers=None, fallback=None): the third parameter has another name *)
+(* how it is installed *)
+Inductive via :=
+  | VDefault       (* not at all: TestCase.run_tests_with is RunTest *)
+  | VClass         (* class attribute run_tests_with *)
+  | VCtor          (* TestCase(..., runTest=factory) *)
+  | VDeco          (* @run_test_with(factory) on the test method *)
+  | VDecoKw.       (* @run_test_with(factory, tag=3) *)
+Record runner := { r_factory : factory; r_via : via }.
+Definition default_runner : runner := {| r_factory := RT_RunTest; r_via := VDefault |}.
+(* can the factory be called with the keyword last_resort=...?  If not the call raises TypeError
+   and both TestCase.run and the run_test_with wrapper call it again without it (the backwards-compatibility
+   path for factories written before that argument existed). *)
+Definition accepts_last_resort (sh : factory) : bool :=
+  match sh with RT_OldFn | RT_OldSub | RT_OldFnKw | RT_FnRenamed => false | _ => true end.
+(* the handler of last resort of the RunTest that is built, as what it reports: TestCase._report_error either
+   way - handed over as last_resort= in the call, or, on the fallback path, installed on the runner the
+   factory returned (_install_last_resort, fix F27; before it such a RunTest kept RunTest's own default,
+   which reports nothing: run_prepared_with None below) *)
+Definition runner_last_resort (r : runner) : option outcome :=
+  if accepts_last_resort (r_factory r) then last_resort else last_resort.
+
+(* _run_prepared_result, runtest.py:96-121: the final state, what propagates, out-of-fuel;
+   [lr] is what the RunTest's handler of last resort reports *)
+Definition run_prepared_with (lr : option outcome) (p : prog) (fuel : nat) (s : st) : st * option exc * bool :=
   let s0 := set_excs [] (add_tr [TStart] s) in
   let '(s1, oof) := run_core p fuel s0 in
   let '(s2, propagated) :=
@@ -541,13 +586,16 @@ Definition run_prepared (p : prog) (fuel : nat) (s : st) : st * option exc * boo
     | None => (s1, None)
     | Some e => match lookup (handlers_of (uh s1)) e with
                 | Some h => (call_handler h e s1, None)
-                | None => (match last_resort with
+                | None => (match lr with
                            | Some o => add_tr [TOut o (current_details s1)] s1
                            | None => s1
                            end, Some e)
                 end
     end in
   (add_tr [TStop] s2, propagated, oof).
+(* with the RunTest TestCase.run builds by default *)
+Definition run_prepared (p : prog) (fuel : nat) (s : st) : st * option exc * bool :=
+  run_prepared_with last_resort p fuel s.
 
 (* TestCase._reset *)
 Definition reset (s : st) : st := set_tbgen 0 (set_dets [] (set_stack [] s)).
@@ -571,8 +619,12 @@ Definition init (p : prog) (attrs0 : list (nat * nat)) : st :=
      onexc := []; force := false; uh := p_handlers p; tr := [] |}.
 
 (* TestCase.run(result) on an instance in state s *)
-Definition run_from (p : prog) (s : st) : st * option exc * bool :=
-  run_prepared p (S (prog_size p)) (reset s).
+Definition run_from_with (lr : option outcome) (p : prog) (s : st) : st * option exc * bool :=
+  run_prepared_with lr p (S (prog_size p)) (reset s).
+Definition run_from (p : prog) (s : st) : st * option exc * bool := run_from_with last_resort p s.
+(* ... of a case whose RunTest comes from the factory [r] *)
+Definition run_from_runner (r : runner) (p : prog) (s : st) : st * option exc * bool :=
+  run_from_with (runner_last_resort r) p s.
 Definition run (p : prog) (attrs0 : list (nat * nat)) : st * option exc * bool := run_from p (init p attrs0).
 
 (* ------------------------------------------------------------------ *)
